@@ -3,3 +3,6 @@ import MorfuseModel.Common.Ring
 import MorfuseModel.SafePtr.Model
 import MorfuseModel.SafePtr.Lemmas
 import MorfuseModel.Props.C12
+import MorfuseModel.Sched.Timer
+import MorfuseModel.Sched.Tables
+import MorfuseModel.Sched.Machine
